@@ -200,42 +200,46 @@ func TestVerifReplayConverge(t *testing.T) {
 		bgpNoRid = `{"network-instance":[{"name":"default","protocol":{"bgp":{"admin-state":"disable","autonomous-system":65000}}}]}`
 	)
 	histories := map[string][]vrcStep{
-		"shadowed value becomes active when the ruling intent is deleted":     {{name: "A", prio: 10, json: ifA}, {name: "B", prio: 5, json: ifB}, {name: "B", prio: 5, json: ""}},
-		"lower-precedence intent changes nothing":                             {{name: "B", prio: 5, json: ifB}, {name: "A", prio: 10, json: ifA}, {name: "A", prio: 10, json: ""}},
-		"entry removed from an intent":                                        {{name: "A", prio: 10, json: ifTwo}, {name: "A", prio: 10, json: ifA}},
-		"nested entry removed, then intent deleted":                           {{name: "A", prio: 10, json: ifSub}, {name: "A", prio: 10, json: ifA}, {name: "A", prio: 10, json: ""}},
-		"same intent switches the choice case":                                {{name: "A", prio: 10, json: case2}, {name: "A", prio: 10, json: case1}},
-		"same intent switches the choice case back":                           {{name: "A", prio: 10, json: case1}, {name: "A", prio: 10, json: case2}, {name: "A", prio: 10, json: case1}},
-		"ruling intent with the other case is deleted":                        {{name: "O2", prio: 10, json: case2}, {name: "O1", prio: 5, json: case1}, {name: "O1", prio: 5, json: ""}},
-		"unchanged intent re-applied":                                         {{name: "A", prio: 10, json: ifTwo}, {name: "A", prio: 10, json: ifTwo}},
-		"unchanged intent with leaf-list and pattern re-applied":              {{name: "A", prio: 10, json: llOne}, {name: "B", prio: 20, json: pattern}, {name: "A", prio: 10, json: llOne}},
-		"leaf-list replaced":                                                  {{name: "A", prio: 10, json: llOne}, {name: "A", prio: 10, json: llTwo}},
-		"priority of an intent changed":                                       {{name: "A", prio: 10, json: ifA}, {name: "B", prio: 7, json: ifB}, {name: "A", prio: 5, json: ifA}},
-		"presence container emptied, then intent deleted":                     {{name: "A", prio: 10, json: case2}, {name: "A", prio: 10, json: case2E}, {name: "A", prio: 10, json: ""}},
-		"presence container populated":                                        {{name: "A", prio: 10, json: case2E}, {name: "A", prio: 10, json: case2}},
-		"created intent cancelled, then another transaction":                  {{name: "B", prio: 20, json: pattern}, {name: "A", prio: 10, json: ifA, cancel: true}, {name: "C", prio: 30, json: llOne}},
-		"changed intent cancelled":                                            {{name: "A", prio: 10, json: ifA}, {name: "A", prio: 10, json: ifTwo, cancel: true}},
-		"re-prioritised intent cancelled":                                     {{name: "A", prio: 10, json: ifA}, {name: "B", prio: 7, json: ifB}, {name: "A", prio: 5, json: ifA, cancel: true}},
-		"weaker intent adds the other case":                                   {{name: "O1", prio: 5, json: case1}, {name: "O2", prio: 10, json: case2}},
-		"weaker intent adds a member of the winning case":                     {{name: "O1", prio: 5, json: case1}, {name: "O3", prio: 8, json: case2}, {name: "O2", prio: 10, json: case1Log}},
-		"stronger intent takes the choice over":                               {{name: "O2", prio: 10, json: case2}, {name: "O1", prio: 5, json: case1}},
-		"two intents shrink in one transaction":                               {{name: "A", prio: 10, json: ifTwo}, {name: "B", prio: 20, json: ifTwo}, {name: "A", prio: 10, json: ifB, with: []vrcStep{{name: "B", prio: 20, json: ifA}}}},
-		"two intents deleted in one transaction":                              {{name: "A", prio: 10, json: ifTwo}, {name: "B", prio: 20, json: ifTwo}, {name: "C", prio: 30, json: ifA}, {name: "A", prio: 10, json: "", with: []vrcStep{{name: "B", prio: 20, json: ""}}}},
-		"two intents set in one transaction":                                  {{name: "A", prio: 10, json: ifA, with: []vrcStep{{name: "B", prio: 5, json: ifTwo}}}, {name: "B", prio: 5, json: ""}},
-		"unchanged shadowed intent re-applied":                                {{name: "A", prio: 10, json: ifA}, {name: "B", prio: 5, json: ifB}, {name: "A", prio: 10, json: ifA}},
-		"unchanged intent holding the ruling case re-applied":                 {{name: "O1", prio: 5, json: case1}, {name: "O2", prio: 10, json: case2}, {name: "O1", prio: 5, json: case1}},
-		"unchanged intent holding the losing case re-applied":                 {{name: "O1", prio: 5, json: case1}, {name: "O2", prio: 10, json: case2}, {name: "O2", prio: 10, json: case2}},
-		"neighbouring leaf of another intent in a plain container":            {{name: "A", prio: 5, json: dkV1}, {name: "B", prio: 10, json: dkV2}, {name: "A", prio: 5, json: ""}},
-		"intent shrinks next to a leaf of another intent":                     {{name: "B", prio: 10, json: dkV2}, {name: "A", prio: 5, json: dkV1}, {name: "A", prio: 5, json: dkNone}},
-		"presence holder deleted, another intent holds a child":               {{name: "X", prio: 10, json: case2E}, {name: "Y", prio: 20, json: case2}, {name: "X", prio: 10, json: ""}},
-		"presence holder deleted, a stronger intent holds a child":            {{name: "Y", prio: 5, json: case2}, {name: "X", prio: 10, json: case2E}, {name: "X", prio: 10, json: ""}},
-		"mandatory leaf dropped by a new revision of the intent":              {{name: "A", prio: 10, json: bgpFull}, {name: "A", prio: 10, json: bgpNoRid, invalid: true}},
-		"mandatory leaf missing from the start":                               {{name: "A", prio: 10, json: bgpNoRid, invalid: true}},
-		"mandatory list leaf dropped by a new revision":                       {{name: "A", prio: 10, json: dkV1}, {name: "A", prio: 10, json: dkNoMand, invalid: true}},
-		"leafref key source dropped by a new revision":                        {{name: "A", prio: 10, json: refFull}, {name: "A", prio: 10, json: refNoIf, invalid: true}},
-		"leafref target dropped by a new revision":                            {{name: "A", prio: 10, json: refFull}, {name: "A", prio: 10, json: refNoSub, invalid: true}},
-		"ruling intent switches the case, a weaker intent holds the old case": {{name: "O1", prio: 15, json: case1Log}, {name: "O2", prio: 10, json: case1Log}, {name: "O2", prio: 10, json: case2}},
-		"deleted intent cancelled":                                            {{name: "A", prio: 10, json: ifTwo}, {name: "A", prio: 10, json: "", cancel: true}},
+		"shadowed value becomes active when the ruling intent is deleted":                 {{name: "A", prio: 10, json: ifA}, {name: "B", prio: 5, json: ifB}, {name: "B", prio: 5, json: ""}},
+		"lower-precedence intent changes nothing":                                         {{name: "B", prio: 5, json: ifB}, {name: "A", prio: 10, json: ifA}, {name: "A", prio: 10, json: ""}},
+		"entry removed from an intent":                                                    {{name: "A", prio: 10, json: ifTwo}, {name: "A", prio: 10, json: ifA}},
+		"nested entry removed, then intent deleted":                                       {{name: "A", prio: 10, json: ifSub}, {name: "A", prio: 10, json: ifA}, {name: "A", prio: 10, json: ""}},
+		"same intent switches the choice case":                                            {{name: "A", prio: 10, json: case2}, {name: "A", prio: 10, json: case1}},
+		"same intent switches the choice case back":                                       {{name: "A", prio: 10, json: case1}, {name: "A", prio: 10, json: case2}, {name: "A", prio: 10, json: case1}},
+		"ruling intent with the other case is deleted":                                    {{name: "O2", prio: 10, json: case2}, {name: "O1", prio: 5, json: case1}, {name: "O1", prio: 5, json: ""}},
+		"unchanged intent re-applied":                                                     {{name: "A", prio: 10, json: ifTwo}, {name: "A", prio: 10, json: ifTwo}},
+		"unchanged intent with leaf-list and pattern re-applied":                          {{name: "A", prio: 10, json: llOne}, {name: "B", prio: 20, json: pattern}, {name: "A", prio: 10, json: llOne}},
+		"leaf-list replaced":                                                              {{name: "A", prio: 10, json: llOne}, {name: "A", prio: 10, json: llTwo}},
+		"priority of an intent changed":                                                   {{name: "A", prio: 10, json: ifA}, {name: "B", prio: 7, json: ifB}, {name: "A", prio: 5, json: ifA}},
+		"presence container emptied, then intent deleted":                                 {{name: "A", prio: 10, json: case2}, {name: "A", prio: 10, json: case2E}, {name: "A", prio: 10, json: ""}},
+		"presence container populated":                                                    {{name: "A", prio: 10, json: case2E}, {name: "A", prio: 10, json: case2}},
+		"created intent cancelled, then another transaction":                              {{name: "B", prio: 20, json: pattern}, {name: "A", prio: 10, json: ifA, cancel: true}, {name: "C", prio: 30, json: llOne}},
+		"changed intent cancelled":                                                        {{name: "A", prio: 10, json: ifA}, {name: "A", prio: 10, json: ifTwo, cancel: true}},
+		"re-prioritised intent cancelled":                                                 {{name: "A", prio: 10, json: ifA}, {name: "B", prio: 7, json: ifB}, {name: "A", prio: 5, json: ifA, cancel: true}},
+		"weaker intent adds the other case":                                               {{name: "O1", prio: 5, json: case1}, {name: "O2", prio: 10, json: case2}},
+		"weaker intent adds a member of the winning case":                                 {{name: "O1", prio: 5, json: case1}, {name: "O3", prio: 8, json: case2}, {name: "O2", prio: 10, json: case1Log}},
+		"stronger intent takes the choice over":                                           {{name: "O2", prio: 10, json: case2}, {name: "O1", prio: 5, json: case1}},
+		"two intents shrink in one transaction":                                           {{name: "A", prio: 10, json: ifTwo}, {name: "B", prio: 20, json: ifTwo}, {name: "A", prio: 10, json: ifB, with: []vrcStep{{name: "B", prio: 20, json: ifA}}}},
+		"two intents deleted in one transaction":                                          {{name: "A", prio: 10, json: ifTwo}, {name: "B", prio: 20, json: ifTwo}, {name: "C", prio: 30, json: ifA}, {name: "A", prio: 10, json: "", with: []vrcStep{{name: "B", prio: 20, json: ""}}}},
+		"two intents set in one transaction":                                              {{name: "A", prio: 10, json: ifA, with: []vrcStep{{name: "B", prio: 5, json: ifTwo}}}, {name: "B", prio: 5, json: ""}},
+		"unchanged shadowed intent re-applied":                                            {{name: "A", prio: 10, json: ifA}, {name: "B", prio: 5, json: ifB}, {name: "A", prio: 10, json: ifA}},
+		"unchanged intent holding the ruling case re-applied":                             {{name: "O1", prio: 5, json: case1}, {name: "O2", prio: 10, json: case2}, {name: "O1", prio: 5, json: case1}},
+		"unchanged intent holding the losing case re-applied":                             {{name: "O1", prio: 5, json: case1}, {name: "O2", prio: 10, json: case2}, {name: "O2", prio: 10, json: case2}},
+		"neighbouring leaf of another intent in a plain container":                        {{name: "A", prio: 5, json: dkV1}, {name: "B", prio: 10, json: dkV2}, {name: "A", prio: 5, json: ""}},
+		"intent shrinks next to a leaf of another intent":                                 {{name: "B", prio: 10, json: dkV2}, {name: "A", prio: 5, json: dkV1}, {name: "A", prio: 5, json: dkNone}},
+		"presence holder deleted, another intent holds a child":                           {{name: "X", prio: 10, json: case2E}, {name: "Y", prio: 20, json: case2}, {name: "X", prio: 10, json: ""}},
+		"presence holder deleted, a stronger intent holds a child":                        {{name: "Y", prio: 5, json: case2}, {name: "X", prio: 10, json: case2E}, {name: "X", prio: 10, json: ""}},
+		"mandatory leaf dropped by a new revision of the intent":                          {{name: "A", prio: 10, json: bgpFull}, {name: "A", prio: 10, json: bgpNoRid, invalid: true}},
+		"mandatory leaf missing from the start":                                           {{name: "A", prio: 10, json: bgpNoRid, invalid: true}},
+		"mandatory list leaf dropped by a new revision":                                   {{name: "A", prio: 10, json: dkV1}, {name: "A", prio: 10, json: dkNoMand, invalid: true}},
+		"leafref key source dropped by a new revision":                                    {{name: "A", prio: 10, json: refFull}, {name: "A", prio: 10, json: refNoIf, invalid: true}},
+		"leafref target dropped by a new revision":                                        {{name: "A", prio: 10, json: refFull}, {name: "A", prio: 10, json: refNoSub, invalid: true}},
+		"ruling intent switches the case, a weaker intent holds the old case":             {{name: "O1", prio: 15, json: case1Log}, {name: "O2", prio: 10, json: case1Log}, {name: "O2", prio: 10, json: case2}},
+		"intent holding a presence container with mandatory leaves is deleted":            {{name: "A", prio: 10, json: bgpFull}, {name: "A", prio: 10, json: ""}},
+		"intent gives up the presence container with its mandatory leaves":                {{name: "A", prio: 10, json: bgpFull}, {name: "A", prio: 10, json: `{"network-instance":[{"name":"default"}]}`}},
+		"owner of a list entry with a mandatory leaf is deleted, another entry stays":     {{name: "A", prio: 10, json: dkV1}, {name: "B", prio: 20, json: `{"doublekey":[{"key1":"k9","key2":"k9","mandato":"m"}]}`}, {name: "A", prio: 10, json: ""}},
+		"an entry with a mandatory leaf dropped by a new revision, a sibling entry stays": {{name: "A", prio: 10, json: `{"doublekey":[{"key1":"k1","key2":"k2","mandato":"m"},{"key1":"k3","key2":"k4","mandato":"n"}]}`}, {name: "A", prio: 10, json: `{"doublekey":[{"key1":"k1","key2":"k2","mandato":"m"}]}`}},
+		"deleted intent cancelled":                                                        {{name: "A", prio: 10, json: ifTwo}, {name: "A", prio: 10, json: "", cancel: true}},
 	}
 	// list subinterface { max-elements 4095 }: 4100 entries
 	{
